@@ -12,10 +12,14 @@ RULE = ('histories: a polygon of the C04 space (convex, star, rectilinear, L/U, 
         'instead around the library thresholds: tilt 0.01..1 deg, offset 1e-9..1e-3; compared with the model, outside the oracle\'s "clearly"), outside, straddling '
         'the outline, inside / straddling an existing hole, enclosing an existing hole, one vertex millimetres from the first edge midpoint, '
         'not closed; outcome class and complete polygon state compared after every cut_hole; non-trivial = at least one candidate was '
-        'accepted or refused for a geometric reason; distinct = distinct (outer, candidates) bit patterns')
+        'accepted or refused for a geometric reason; distinct = distinct (outer, candidates) bit patterns; thorough tier: also 2000 histories of the f32 build (correspondence only, no oracle)')
 ASSUMPTIONS = [
     'Coq 8.16.1 kernel + vm_compute; the structural theorems hold for every number instance of the model (reals, Flocq floats, primitive floats)',
     'model = code: polygon3d.rs new/test_point/cut_hole checked bit-for-bit after every step of every history',
+    'f32 build (thorough tier): the same runner text instantiated on the binary32 instance (module C11f32 of Run/C11.v on NumF32fast, proved equal to the '
+    'Flocq-rounded NumF32 in Run/FastNum32Proof.v) against the harness built with --features float, bit for bit; the f32 generator draws 75% coordinate planes, offsets to 8 '
+    '(finding F15: the absolute 1e-7 coplanarity tolerance refuses oblique f32 outlines; refusals / Err / panic outcomes are reproduced by the model); CORRESPONDENCE ONLY: the '
+    'exact-rational oracle does not judge f32 cases',
     'the geometric reading (inside / outside / enclosing) rests on Loop3D::test_point (C05) and is checked on the implementation by the exact oracle with margins >= 1e-3',
 ]
 THEOREMS = ['C11_refused_unchanged', 'C11_accepted_accounts', 'C11_history_accounting', 'C11_history_from_new', 'C11_acceptance', 'C11_no_panic']
@@ -23,7 +27,12 @@ THEOREMS = ['C11_refused_unchanged', 'C11_accepted_accounts', 'C11_history_accou
 def streams(tier):
     if tier == 'quick': return [Stream('C11', 1200)]
     if tier == 'search': return [Stream('C11', 2500)]
-    return [Stream('C11', 6000), Stream('C11', 2000, release=True)]
+    # f32 build (thorough tier): correspondence only, the oracle does not judge f32 cases
+    return [Stream('C11', 6000), Stream('C11', 2000, release=True), Stream('C11', 2000, f32=True)]
+
+def is_f32(c, st=None):
+    """cases of the f32 build carry "f32": true (harness/src/polys.rs); the stream flag says the same"""
+    return bool(c.get('f32') or (st is not None and getattr(st, 'f32', False)))
 
 M = 1e-3          # the margin of "clearly"
 OFF_CLEAR2 = Fr(1, 10 ** 8)     # (1e-4)^2 : clearly off the plane (library tolerance 1e-7)
@@ -34,7 +43,7 @@ def classify(c, st):
     key = (tuple(c['outer']['v']), tuple(tuple(h['loop']['v']) for h in c['holes']))
     outs = [s['o'] for s in c['snaps']]
     triv = not any(o in (0, 50, 51, 52) for o in outs)
-    return key, triv, '%s->%d' % (c['holes'][-1]['kind'], outs[-1]) if outs else 'empty'
+    return key, triv, ('f32:' if is_f32(c, st) else '') + ('%s->%d' % (c['holes'][-1]['kind'], outs[-1]) if outs else 'empty')
 
 def describe(c, st):
     return dict(note=c['note'], outer=[hexf(x) for p in LoopJ(c['outer'], st).v[:6] for x in p],
@@ -93,6 +102,8 @@ def geometric(outer, inner, hole):
     return None, 'unclassified', exp_ins, exp_enc
 
 def oracle(c, st):
+    # f32 build: correspondence only (the margins M / OFF_CLEAR2 / ON2 above are set against binary64 rounding)
+    if is_f32(c, st): return None
     outer = LoopJ(c['outer'], st)
     prev = c['init']
     if c['init']['inner'] or tuple(c['init']['outer']) != tuple(c['outer']['v']):
